@@ -161,3 +161,4 @@ reg('C11', 'streams', 'rule_prefill')
 reg('C10', 'replace_cache', 'rule_sibling_splice')   # replay streams rope(): it must render to source()
 reg('C04', 'replace_cache', 'rule_sibling_splice')
 reg('C07', 'caches', 'rule_memo')                    # a memoised view has one meaning: all initialisers of a cell agree
+reg('C12', 'bounds', 'rule_decoder_width')
